@@ -13,8 +13,7 @@ def showRes {α : Type} (f : α → String) : Res α → String
 
 /-- `gen pw=<hex> cost=<int> rnd=<hex 16>` → `ok <hash hex>` | `err:<class>` | `panic`
     `cmp hash=<hex> pw=<hex>` → `cost=<n|err:..|panic> cmp=<ok|err:..|panic>`;  `cost hash=<hex>` → `cost=<…>` -/
-def handle (line : String) : String :=
-  let o := parseOp line
+def handle1 (o : Op) : String :=
   match o.cmd with
   | "gen" =>
     match o.hex? "pw", o.int? "cost", o.hex? "rnd" with
@@ -31,5 +30,13 @@ def handle (line : String) : String :=
     | some h => s!"cost={showRes (fun (c : Int) => toString c) (cost h)}"
     | none => "bad-op"
   | _ => "bad-op"
+
+/-- with `expect=<ok|err:class>` (corpus of published hashes): ` kat=ok` iff the MODEL's Compare result is the expected one -/
+def handle (line : String) : String :=
+  let o := parseOp line
+  let r := handle1 o
+  match o.get? "expect" with
+  | none => r
+  | some e => if r.endsWith ("cmp=" ++ e) then r ++ " kat=ok" else r ++ " kat=MODEL-MISMATCH"
 
 end XC.C17
